@@ -127,14 +127,27 @@ fn collision_classes(dir: &Path, spec: &[Entry], pats: &[P], st: &mut Stats) -> 
 }
 
 fn diff(expected: &Multi, actual: &Multi) -> Option<(String, String)> {
-    if expected == actual {
+    diff2(expected, expected, actual)
+}
+
+/// `required` ⊆ actual ⊆ `allowed` (as multisets)
+fn diff2(required: &Multi, allowed: &Multi, actual: &Multi) -> Option<(String, String)> {
+    let expected = allowed;
+    if required == actual || allowed == actual {
         return None;
     }
-    for (k, n) in expected {
+    for (k, n) in required {
         let a = actual.get(k).copied().unwrap_or(0);
         if a < *n {
             return Some(("finding-dropped".into(), format!("(pattern {}, file {}, lines {:?}) appears {} time(s) in the directory result, expected {}", k.0, k.1, k.2, a, n)));
         }
+    }
+    let mut any = false;
+    for (k, a) in actual {
+        any |= expected.get(k).copied().unwrap_or(0) < *a;
+    }
+    if !any {
+        return None;
     }
     for (k, a) in actual {
         let n = expected.get(k).copied().unwrap_or(0);
@@ -155,6 +168,12 @@ pub fn c03_spec(check: &str, spec: &[Entry], pats: &[P], st: &mut Stats) -> Vec<
             return vec![];
         }
     };
+    // files reached only through a symbolic link to a directory may be analysed (they are today) or
+    // not: the statement does not say whether they are "beneath" the directory
+    let required = match expected_multi(&tree::strip_links(spec), pats) {
+        Ok(e) => e,
+        Err(_) => return vec![],
+    };
     let sc = Scratch::new("c03");
     let root = sc.path.join("tree");
     std::fs::create_dir_all(&root).unwrap();
@@ -171,7 +190,10 @@ pub fn c03_spec(check: &str, spec: &[Entry], pats: &[P], st: &mut Stats) -> Vec<
         Ok(a) => a,
         Err(site) => return vec![Violation::new(check, format!("panic:{site}"), "analyze_dir panicked on a tree whose eligible files all parse", case)],
     };
-    if let Some((sig, what)) = diff(&expected, &actual) {
+    if actual == expected && expected != required {
+        st.count("trees_where_symlinked_directories_were_followed");
+    }
+    if let Some((sig, what)) = diff2(&required, &expected, &actual) {
         let cls = if collision { "after-earlier-file" } else { "plain" };
         return vec![Violation::new(check, format!("{sig}:{cls}"), what, case)];
     }
@@ -295,6 +317,20 @@ pub fn run_c03(env: &Env) -> i32 {
         st.violations.extend(vs);
     }
     tape_stream(env, &mut st, "trees", env.tier.n(5000, 100_000), 700, |tape, s| c03_case(tape, s));
+    // fixed deep and wide shapes, with all patterns and with two sub-selections
+    let shaped = tree::shaped_specs(false);
+    enum_stream(env, &mut st, shaped.len() as u64 * 3, |i, s| {
+        let (name, spec) = &shaped[(i / 3) as usize];
+        let all = patterns::all();
+        let pats: Vec<P> = match i % 3 {
+            0 => all,
+            1 => all.into_iter().rev().step_by(2).collect(),
+            _ => all.into_iter().skip(1).step_by(3).collect(),
+        };
+        s.count("shaped_trees");
+        s.mark("shaped_tree_names", name);
+        c03_spec("shaped-trees", spec, &pats, s)
+    });
     e2e::report_roundtrip(env, &mut st, env.tier.n(100, 2000));
     let trees = st.evaluations.max(1);
     let coll = st.counters.get("file_listed_before_subdirectory_with_same_pattern").copied().unwrap_or(0);
@@ -323,6 +359,14 @@ pub fn run_c16(env: &Env) -> i32 {
         st.violations.extend(vs);
     }
     tape_stream(env, &mut st, "trees", env.tier.n(5000, 100_000), 700, |tape, s| c16_case(tape, s));
+    // fixed deep and wide shapes with inert files at every level
+    let shaped = tree::shaped_specs(true);
+    enum_stream(env, &mut st, shaped.len() as u64, |i, s| {
+        let (name, spec) = &shaped[i as usize];
+        s.count("shaped_trees");
+        s.mark("shaped_tree_names", name);
+        c16_spec("shaped-trees", spec, s)
+    });
     // binary sample: exit status 0 on trees full of inert files
     if env.solstat_bin().exists() {
         tape_stream(env, &mut st, "binary", env.tier.n(100, 2000), 700, |tape, s| {
